@@ -207,7 +207,8 @@ pub const AMBIG_RENDER: &str =
 pub fn panic_payload(o: Outcome, key: &str, inv: usize) -> String {
     match o {
         Outcome::Pass => unreachable!(),
-        Outcome::PanicString | Outcome::PanicOnThread => format!("String:boom {key}#{inv}"),
+        Outcome::PanicString => format!("String:boom {key}#{inv}"),
+        Outcome::PanicOnThread => format!("BoxErr:boom {key}#{inv}"),
         Outcome::PanicStr => "str:boom-static".into(),
         Outcome::PanicCustom => format!("Custom:{key}#{inv}"),
     }
